@@ -64,14 +64,24 @@ def dyadic_intervals(g, lev, pre_split_long=False):
     return out
 
 
+def install_recorders(SL, log):
+    """Every 2-D rule object of the operator is replaced by a recorder.  The two rules the recursion uses today keep their names
+    ('duffy', 'loglog': their orientation is checked against the geometric singularity); any OTHER 2-D rule the code may use on a
+    terminal panel (e.g. a tensor Gauss rule for separated panels) is recorded as 'other:<attribute>' - its accuracy is layer B's
+    business, layer A only checks that the panels tile the rectangle."""
+    for name, obj in list(vars(SL).items()):
+        if hasattr(obj, 'integrate') and hasattr(obj, 'mirror_x') and hasattr(obj, 'mirror_y') and not isinstance(obj, Rec):
+            kind = {'duff_log_log': 'duffy', 'log_log': 'loglog'}.get(name, 'other:' + name)
+            setattr(SL, name, Rec(log, kind))
+
+
 def layerA_curve(args):
     cname, lev = args
     g = curve(cname)
     L = float(g.gamma_length)
     SL = universe.make_SL(cname)
     log = []
-    SL.duff_log_log = Rec(log, 'duffy')
-    SL.log_log = Rec(log, 'loglog')
+    install_recorders(SL, log)
     integ = SL._SingleLayerOperator__integrate
     ivs = dyadic_intervals(g, lev)
     dyadic = cname in ('UnitSquare', 'LShape', 'UnitInterval')
@@ -99,6 +109,9 @@ def layerA_curve(args):
                 import traceback
                 tb = traceback.extract_tb(ex.__traceback__)[-1]
                 viols.append(('assertion', (I, J, '{}:{} {}'.format(tb.filename.split('/')[-1], tb.lineno, tb.line))))
+                continue
+            except Exception as ex:  # noqa: BLE001
+                viols.append(('raised', (I, J, repr(ex))))
                 continue
             nterm += len(log)
             sig = tuple((k, m) for k, m, *_ in log)
@@ -130,6 +143,8 @@ def check_panels(log, a, b, c, d, L, closed, dyadic):
         touch2 = close(pd, pa)                                  # y-interval left of x-interval: corner (a,d)
         if min(pb, pd) - max(pa, pc) > eps and not ident:
             return ('terminal-panel-overlapping-intervals', (kind, mirror, pa, pb, pc, pd))
+        if kind.startswith('other:'):
+            continue  # a rule object layer A does not know: whether it suits the panel is decided by the values (layer B)
         if ident:
             if (kind, mirror) != ('duffy', ''):
                 return ('rule-identical', (kind, mirror, pa, pb, pc, pd))
@@ -161,15 +176,19 @@ def layerA_swap(cname):
     g = curve(cname)
     SL = universe.make_SL(cname)
     log = []
-    SL.duff_log_log = Rec(log, 'duffy')
-    SL.log_log = Rec(log, 'loglog')
+    install_recorders(SL, log)
     U = universe.rect_universe(cname, (0., 1.), 0, 1)
     els = universe.all_elements(U)
     viols = []
     n = 0
 
     class E:
-        pass
+        """The real element with a recording parametrisation: every other attribute is the real element's."""
+        def __init__(self, real):
+            object.__setattr__(self, '_real', real)
+
+        def __getattr__(self, name):
+            return getattr(object.__getattribute__(self, '_real'), name)
 
     for te in els:
         for tr in els:
@@ -180,9 +199,9 @@ def layerA_swap(cname):
                     seen.append((tag, float(np.ravel(x)[0])))
                     return e.gamma_space(x)
                 return gam
-            a = E()
+            a = E(te)
             a.time_interval, a.space_interval, a.gamma_space = te.time_interval, te.space_interval, mk('test', te)
-            b = E()
+            b = E(tr)
             b.time_interval, b.space_interval, b.gamma_space = tr.time_interval, tr.space_interval, mk('trial', tr)
             if g.closed and te.space_interval != tr.space_interval and \
                     {te.space_interval[0], te.space_interval[1]} & {0.0} and False:
@@ -193,6 +212,9 @@ def layerA_swap(cname):
                 SL.bilform(b, a)
             except AssertionError as ex:
                 viols.append(('swap-assertion', (te.space_interval, tr.space_interval)))
+                continue
+            except Exception as ex:  # noqa: BLE001
+                viols.append(('swap-raised', (te.space_interval, tr.space_interval, repr(ex))))
                 continue
             for tag, x in seen:
                 iv = te.space_interval if tag == 'test' else tr.space_interval
@@ -324,9 +346,14 @@ def history_task(item):
 
 # very short end times (h_t of order h_x^2 / 32): the kernel has decayed to nothing across the parameter interval but NOT across the
 # closing seam / around a corner - only the elements whose aspect passes the filter take part (the finest space level)
-SHORT_T = {'quick': [('UnitSquare', (0., 2.0**-9), 0, 2, ''), ('UnitSquare', (0., 2.0**-11), 0, 3, ''), ('Circle', (0., 2.0**-9), 0, 3, '')],
+SHORT_T = {'quick': [('UnitSquare', (0., 2.0**-9), 0, 2, ''), ('UnitSquare', (0., 2.0**-11), 0, 3, ''), ('Circle', (0., 2.0**-9), 0, 3, ''),
+                     # thin slabs at both ends of [0, 1] (time lag >> slab thickness); a custom space grid with very unequal close panels
+                     ('UnitSquare', (0., 1 / 32, 31 / 32, 1.), 0, 1, ''), ('UnitSquare', (0., 1 / 32), 0, 0, 'xs:uneq')],
            'thorough': [(c, (0., 2.0**-9), 1, 2, '') for c in ('UnitSquare', 'LShape', 'UnitInterval')] + [('UnitSquare', (0., 2.0**-11), 0, 3, ''),
-                        ('Circle', (0., 2.0**-9), 0, 3, ''), ('PiSquare', (0., 2.0**-9), 0, 2, ''), ('UnitSquare', (0., 2.0**-9, 1.), 0, 2, '')]}
+                        ('Circle', (0., 2.0**-9), 0, 3, ''), ('PiSquare', (0., 2.0**-9), 0, 2, ''), ('UnitSquare', (0., 2.0**-9, 1.), 0, 2, ''),
+                        ('UnitSquare', (0., 1 / 32, 31 / 32, 1.), 1, 2, ''), ('Circle', (0., 1 / 32, 31 / 32, 1.), 0, 2, ''), ('UnitSquare', (0., 1 / 32), 0, 1, 'xs:uneq'),
+                        # a thin slab directly after a thick one on the longest sides (far-field shortcuts keyed on the wrong time lag)
+                        ('PiSquare', (0., 0.5, 0.5 + 2.0**-9), 0, 4, ''), ('LShape', (0., 0.5, 0.5 + 2.0**-9), 0, 3, '')]}
 LAYER_B = {
     'quick': [(c, (0., 1.), 1, 2, '') for c in CURVES] + [(c, (0., 0.125), 0, 2, '') for c in ('UnitSquare', 'Circle')]
              + [(c, (0., 0.3, 1.), 0, 1, '') for c in ('UnitSquare', 'LShape')]
